@@ -134,9 +134,8 @@ func genCase(t *rapid.T) Case {
 		if n >= 2 && rapid.IntRange(0, 2).Draw(t, "distribute") == 0 {
 			b.Dist = genGPUList(t, n, 2, "dist")
 		}
-		if !dma && rapid.IntRange(0, 7).Draw(t, "unified-memory") == 0 {
-			// unified (CPU-resident) memory: the DMA path has no engine to send such a
-			// copy to (see NOTES.md), so it is only generated for the direct-storage path
+		if rapid.IntRange(0, 7).Draw(t, "unified-memory") == 0 {
+			// "unified" memory: pages on GPU 1 that the MMU may migrate on demand
 			b.Dev, b.Dist = -1, nil
 		}
 		b.Init = rapid.IntRange(0, 2).Draw(t, "init") == 0
@@ -160,9 +159,10 @@ func genCase(t *rapid.T) Case {
 	}
 	var kbufs []int
 	for i, b := range c.Bufs {
-		// a kernel touching unified (CPU-resident) memory on a timing platform starts
-		// a page migration: that machinery is property C19's subject, not a copy
-		if b.Size >= 4 && !(b.Dev == -1 && c.Plat.Timing) {
+		// a kernel touching unified memory from another GPU than the one holding
+		// the page starts a page migration on a timing platform: that machinery is
+		// property C19's subject, not a copy
+		if b.Size >= 4 && !(b.Dev == -1 && c.Plat.Timing && n > 1) {
 			kbufs = append(kbufs, i)
 		}
 	}
